@@ -243,3 +243,36 @@ func ZZ_C01_boundPodStaysOnItsNode() {
 	nondet.Observe("deletes", c.Count("delete", "Pod"))
 	nondet.Reach("C01.bound.name-excluding-template", shape == "name-notin-node2")
 }
+
+// ZZ_C01_malformedOverrideStillBound: a node may carry a resources-override annotation for this
+// ExtendedDaemonSet whose value does not parse.  Whatever the controller does about it (skip the
+// node, report an error, create the pod without the override), every pod it creates is bound to
+// the node it was created for and no node gets two: an unbound daemon pod would be placed by the
+// scheduler on any node, including one that already runs a daemon pod.  Two free nodes, either
+// binding style, the annotation on node0 or on both.
+func ZZ_C01_malformedOverrideStillBound() {
+	c, ds, rsNew, _ := zzStore(2)
+	ds.Status.ActiveReplicaSet = rsNew.Name
+	key := "resources.extendeddaemonset.datadoghq.com/" + zzNS + "." + ds.Name + ".agent"
+	c.Nodes[0].Annotations = map[string]string{key: "{not json"}
+	if nondet.Bool("bothNodes") {
+		c.Nodes[1].Annotations = map[string]string{key: `{"requests":{"cpu":"not-a-quantity"}}`}
+	}
+	affinity := nondet.Bool("nodeAffinitySupported")
+	zzReconcile(zzReconciler(c, affinity), zzNS, rsNew.Name)
+	created := map[string]int{}
+	for _, e := range c.Log {
+		if e.Verb == "create" && e.Kind == "Pod" {
+			p := e.Obj.(*corev1.Pod)
+			node := fakeapi.PodNode(p)
+			nondet.Assert("C01.malformed.bound", node == "node0" || node == "node1")
+			nondet.Assert("C01.malformed.binding-style", (p.Spec.NodeName == node) != affinity)
+			created[node]++
+		}
+	}
+	for _, n := range created {
+		nondet.Assert("C01.malformed.one-per-node", n == 1)
+	}
+	nondet.Observe("creates", c.Count("create", "Pod"))
+	nondet.Reach("C01.malformed.pod-created", c.Count("create", "Pod") >= 1)
+}
